@@ -27,6 +27,7 @@
 -- expect: 1	2
 -- expect: 1x
 -- expect: 3	0	0
+local unpack = unpack or table.unpack   -- global in Lua 5.1/LuaJIT, table.unpack in Lua 5.3
 local function f() return 1, 2, 3 end
 local function g() end
 local function h() return end
